@@ -740,7 +740,7 @@ Proof. exact (conj rule_bounds_examples static_test_rejects). Qed.
    both of a kind the site has tested.  Premise span_ord k ts: the start offsets of the tokens that cover characters never
    decrease (zero-width tokens anywhere, duplicates allowed — WEAKER than C02's OrderedDisjoint) and tokens of the tested kinds
    `k` are never empty.  Chunks inherit it (last conjunct).  RepeatedWords, MergeWords x2, CurrencyPlacement, AdjectiveOfA,
-   InflectedVerbAfterTo, CommaFixes x3.  The premise is monitored on every document of the search (span_order_violations). *)
+   InflectedVerbAfterTo, CommaFixes x3.  The premise is monitored on every document of the search, every front-end (span_order_violations = 0 since b629a93; ANY violation on any front-end fails the oracle, no exception). *)
 Theorem C01_span_new_sites_total :
   (forall chunk, span_ord (flag F_WORD) chunk -> repeated_words_spans chunk = Ok tt) /\
   (forall doc, span_ord (flag F_WORD) doc -> merge_words_spans doc = Ok tt) /\
@@ -805,17 +805,28 @@ Check C01_span_ord_from_tokinv :
     forall n ts, C02Gapped.TokInv n ts -> span_ord k (map abs ts).
 Print Assumptions C01_span_ord_from_tokinv.
 
-(* FINDING F34 (harper-typst emits the transform of a show rule before its selector): the tokens of  #show "the": [the]  are
-   [Word 14..17; Word 7..10], inside the 18-char text, neighbours in one chunk; the model of RepeatedWords' site panics on them
-   exactly as the implementation does (span.rs:19 `14 > 10`); the premise span_ord cannot be dropped *)
-Theorem C01_span_new_unordered_refuted :
-  exists chunk, repeated_words_spans chunk = Panic PSpanOrder /\ ~ span_ord (flag F_WORD) chunk /\
-                Forall (fun t => sstart (tspan t) <= send (tspan t) /\ send (tspan t) <= 18) chunk.
-Proof. exact span_new_unordered_refuted. Qed.
-Check C01_span_new_unordered_refuted :
-  exists chunk, repeated_words_spans chunk = Panic PSpanOrder /\ ~ span_ord (flag F_WORD) chunk /\
-                Forall (fun t => sstart (tspan t) <= send (tspan t) /\ send (tspan t) <= 18) chunk.
-Print Assumptions C01_span_new_unordered_refuted.
+(* HISTORY (finding F34, fixed in /repo by 3103238): before the fix harper-typst emitted the transform of a show rule before its
+   selector; the tokens of  #show "the": [the]  were [Word 14..17; Word 7..10] (typst_show_tokens_old), inside the 18-char text,
+   neighbours in one chunk: the model of RepeatedWords' site panics on them exactly as the implementation did (span.rs:19
+   `14 > 10`) and span_ord fails — the premise cannot be dropped.  On the order emitted NOW (typst_show_tokens) span_ord holds
+   and the site returns.  The six witnesses stay in corpus/C01 as passing regressions; reverting the fix is caught. *)
+Example C01_span_new_typst_old_order_history :
+  (repeated_words_spans typst_show_tokens_old = Panic PSpanOrder /\ ~ span_ord (flag F_WORD) typst_show_tokens_old /\
+   Forall (fun t => sstart (tspan t) <= send (tspan t) /\ send (tspan t) <= 18) typst_show_tokens_old) /\
+  (span_ord (flag F_WORD) typst_show_tokens /\ repeated_words_spans typst_show_tokens = Ok tt).
+Proof. exact span_new_typst_old_order_history. Qed.
+
+(* HISTORY (finding F35, residue of F34, fixed in /repo by b629a93): the UNFINISHED Typst show rule  #show "the the":  — typst_syntax
+   hands out the selector again as the transform and harper-typst used to emit its tokens twice:
+   [the 7..10; space; the 11..14; the 7..10; space; the 11..14] (typst_unfinished_show_tokens_old), inside the 16-char text; the model of
+   RepeatedWords' site panics on them exactly as the implementation did (span.rs:19 `11 > 10`, default configuration) and span_ord
+   fails.  On the tokens Typst::parse keeps NOW (the first copy) span_ord holds and the site returns.  The witnesses stay in
+   corpus/C01 as passing regressions; reverting the fix is caught. *)
+Example C01_span_new_typst_unfinished_history :
+  (repeated_words_spans typst_unfinished_show_tokens_old = Panic PSpanOrder /\ ~ span_ord (flag F_WORD) typst_unfinished_show_tokens_old /\
+   Forall (fun t => sstart (tspan t) <= send (tspan t) /\ send (tspan t) <= 16) typst_unfinished_show_tokens_old) /\
+  (span_ord (flag F_WORD) typst_unfinished_show_tokens /\ repeated_words_spans typst_unfinished_show_tokens = Ok tt).
+Proof. exact span_new_typst_unfinished_history. Qed.
 
 (* non-vacuity: words with zero-width breaks at arbitrary offsets between them satisfy the premise and the sites return; a token
    emitted twice is allowed; two words out of order, or an empty word, make the SAME checked Span::new fail *)
